@@ -9,10 +9,12 @@
 // different blocks at one height, and no node process may die.
 //
 // A liveness verdict on real goroutines needs a clock. The clock used here is as forgiving as
-// possible: a node counts as stalled only when it has not stored a new block for 30 s of wall
-// time AND has itself been scheduled for at least 20 s worth of its own 250 ms heartbeats in
-// that period AND its peers' heartbeats say the same (a starved machine slows the heartbeats
-// down with the node). Everything slower than the budget but still advancing is labelled
+// possible: a node counts as stalled only when it has not stored a new block for the stall
+// window AND has itself been scheduled for two thirds of its own 250 ms heartbeats in that
+// window AND its peers' heartbeats say the same (a starved machine slows the heartbeats down
+// with the node). The window is 30 s, or - when this very network has already needed longer
+// pauses between two blocks (start-up included) and recovered from them - six times the longest
+// such pause, up to 120 s. Everything slower than the budget but still advancing is labelled
 // "inconclusive-slow", never reported.
 package c12
 
@@ -434,6 +436,7 @@ type liveProc struct {
 	ticks     int         // heartbeats seen in this run
 	ticksAtH  int         // ... at the last height change
 	tickTimes []time.Time // arrival times of the latest heartbeats
+	maxGap    time.Duration
 	status    string
 	statusAt  time.Time
 	detail    string
@@ -555,8 +558,8 @@ func (p *liveProc) line(l string) {
 	case "TICK":
 		p.ticks++
 		p.tickTimes = append(p.tickTimes, time.Now())
-		if len(p.tickTimes) > 400 {
-			p.tickTimes = append([]time.Time{}, p.tickTimes[200:]...)
+		if len(p.tickTimes) > 1600 {
+			p.tickTimes = append([]time.Time{}, p.tickTimes[800:]...)
 		}
 	case "STATUS":
 		p.status, p.statusAt = strings.TrimPrefix(l, "C12L STATUS "), time.Now()
@@ -584,6 +587,9 @@ func (p *liveProc) line(l string) {
 			p.blocks[hgt] = f[3]
 			p.ntx[hgt] = ntx
 			if hgt > p.height {
+				if g := time.Since(p.heightAt); g > p.maxGap && p.started {
+					p.maxGap = g // the longest pause that did end with a new block
+				}
 				p.height, p.heightAt, p.ticksAtH = hgt, time.Now(), p.ticks
 			}
 		}
@@ -720,7 +726,7 @@ func liveGoroutines(p *liveProc) (stacks string, mempoolFlood bool) {
 			if strings.Contains(blk, want) {
 				var fr []string
 				for _, l := range cur {
-					if strings.HasPrefix(l, "\t") {
+					if strings.HasPrefix(l, "\t") || strings.HasPrefix(l, "created by") || strings.HasPrefix(l, "runtime.goexit") {
 						continue // file:line rows
 					}
 					if q := strings.LastIndex(l, "("); q > 0 && !strings.HasPrefix(l, "goroutine ") {
@@ -766,13 +772,41 @@ const liveStormSig = "live-tx-rebroadcast-storm-starves-consensus"
 const liveC06Key = "recovery-panics@App-block-height--is-higher-than-core-"
 
 const (
-	liveStallWall  = 30 * time.Second // a node below the target stored no block for this long ...
-	liveStallTicks = 80               // ... while it was scheduled for this many of its own 250 ms heartbeats (20 s)
-	liveHopeless   = 150 * time.Second // no block and not enough heartbeats either: the machine is starved
-	liveCaseBudget = 240 * time.Second
+	// a node below the target is stalled when it stored no block for the stall window while it and
+	// its peers emitted at least two thirds of the 250 ms heartbeats of that window. The window is
+	// 30 s, or 6 times the longest pause between two blocks (start-up included) that this very
+	// network has already shown it can recover from, whichever is longer, up to 120 s.
+	liveStallMin   = 30 * time.Second
+	liveStallMax   = 120 * time.Second
+	liveStallScale = 6
+	liveHopeless   = 200 * time.Second // no block and not enough heartbeats either: the machine is starved
+	liveCaseBudget = 330 * time.Second
 )
 
+func liveWindow(maxGap time.Duration) (time.Duration, int) {
+	w := time.Duration(liveStallScale) * maxGap
+	if w < liveStallMin {
+		w = liveStallMin
+	}
+	if w > liveStallMax {
+		w = liveStallMax
+	}
+	return w, int(w/liveTick) * 2 / 3
+}
+
+// runLive runs the scenario; a listen port that another process on the machine grabbed between
+// its reservation and the node's start is no verdict about anything: the scenario starts over.
 func runLive(c LiveCase, x *h.Ctx) {
+	for attempt := 0; attempt < 3; attempt++ {
+		if !runLiveOnce(c, x) {
+			return
+		}
+	}
+	x.Label("inconclusive-port-taken")
+}
+
+// runLiveOnce returns true when the scenario has to be started over (listen port taken).
+func runLiveOnce(c LiveCase, x *h.Ctx) (again bool) {
 	if c.N < 1 || c.N > 9 {
 		x.Label("bad-case")
 		return
@@ -867,7 +901,7 @@ func runLive(c LiveCase, x *h.Ctx) {
 		lines := p.output()
 		for _, l := range lines {
 			if strings.HasPrefix(l, "C12L FATAL") && (strings.Contains(l, "address already in use") || strings.Contains(l, "bind:")) {
-				x.Label("inconclusive-port-taken")
+				again = true
 				return true
 			}
 		}
@@ -1032,6 +1066,14 @@ func runLive(c LiveCase, x *h.Ctx) {
 		}
 		// stalled?
 		if crashState != 2 && crashState != 1 {
+			for _, p := range live {
+				p.mu.Lock()
+				if p.maxGap > maxGap {
+					maxGap = p.maxGap
+				}
+				p.mu.Unlock()
+			}
+			window, needTicks := liveWindow(maxGap)
 			var stuck *liveProc
 			for _, p := range live {
 				hh, at, ticksSince, _, _, _ := p.snapshot()
@@ -1039,26 +1081,23 @@ func runLive(c LiveCase, x *h.Ctx) {
 					continue
 				}
 				gap := now.Sub(at)
-				if gap >= liveStallWall && ticksSince >= liveStallTicks {
+				if gap >= window && ticksSince >= needTicks {
 					stuck = p
 				} else if gap >= liveHopeless {
 					slow = true
-				}
-				if gap > maxGap && gap < liveStallWall {
-					maxGap = gap
 				}
 			}
 			if stuck != nil {
 				// the peers of a stuck node must have had their share of the machine as well
 				for _, p := range live {
-					if p.ticksWithin(liveStallWall) < liveStallTicks {
+					if p.ticksWithin(window) < needTicks {
 						stuck = nil
 						break
 					}
 				}
 			}
 			if stuck != nil {
-				liveReportStall(c, x, live, victim, stuck, target, crashState == 3 && victim != nil)
+				liveReportStall(c, x, live, victim, stuck, target, window, crashState == 3 && victim != nil)
 				return
 			}
 		}
@@ -1158,6 +1197,13 @@ func runLive(c LiveCase, x *h.Ctx) {
 		later = true // the block after the last recorded commit round exists
 	}
 	x.Labelf("heights-decided-in-round>=1:%d", minI64(int64(roundHeights), 6))
+	afterFirst := 0
+	for _, hgt := range hs {
+		if hgt >= 2 && rounds[hgt] >= 1 {
+			afterFirst++ // not the start-up height, during which the nodes are still dialling each other
+		}
+	}
+	x.Labelf("heights>=2-decided-in-round>=1:%d", minI64(int64(afterFirst), 6))
 	x.Labelf("max-commit-round:%d", minI64(maxRound, 4))
 	if victim != nil {
 		x.Label("restart:performed")
@@ -1208,6 +1254,7 @@ func runLive(c LiveCase, x *h.Ctx) {
 	if sawRound && later {
 		x.NonTrivial()
 	}
+	return false
 }
 
 func minI64(a, b int64) int64 {
@@ -1220,7 +1267,7 @@ func minI64(a, b int64) int64 {
 // liveReportStall builds the evidence of a stall: each node's store height, consensus
 // height/round/step, what it believes of its peers, and where its consensus goroutines are
 // parked.
-func liveReportStall(c LiveCase, x *h.Ctx, live []*liveProc, victim, stuck *liveProc, target int64, restarted bool) {
+func liveReportStall(c LiveCase, x *h.Ctx, live []*liveProc, victim, stuck *liveProc, target int64, window time.Duration, restarted bool) {
 	var sb strings.Builder
 	now := time.Now()
 	othersDone := true
@@ -1231,7 +1278,10 @@ func liveReportStall(c LiveCase, x *h.Ctx, live []*liveProc, victim, stuck *live
 		}
 		role := ""
 		if p == victim {
-			role = " (killed and restarted)"
+			role = " (to be killed and restarted later)"
+			if p.runs > 1 {
+				role = " (killed and restarted)"
+			}
 		}
 		fmt.Fprintf(&sb, "\n validator %d%s: store height %d for %.0fs (%d heartbeats); %s", p.idx, role, hh, now.Sub(at).Seconds(), ticksSince, status)
 		if age := now.Sub(sAt); age > 5*time.Second {
@@ -1260,7 +1310,7 @@ func liveReportStall(c LiveCase, x *h.Ctx, live []*liveProc, victim, stuck *live
 		sig = "live-restarted-node-stalls"
 	}
 	x.Fail(sig, "%d validators of equal power, %d running and connected over TCP (silent %v, crash plan: validator %d): validator %d stored no block for %.0f s although it was scheduled (heartbeats) and the target height %d is not reached:%s",
-		c.N, len(live), c.Silent, c.Crash, stuck.idx, liveStallWall.Seconds(), target, sb.String())
+		c.N, len(live), c.Silent, c.Crash, stuck.idx, window.Seconds(), target, sb.String())
 }
 
 // ---------------------------------------------------------------------------------------
@@ -1379,7 +1429,7 @@ func TestLive(t *testing.T) {
 		if i%shards != shard {
 			continue
 		}
-		if hasDeadline && time.Until(deadline) < liveCaseBudget+90*time.Second {
+		if hasDeadline && time.Until(deadline) < liveCaseBudget+60*time.Second {
 			h.Note("C12", "live", "shard %d stopped before case %d: the wall budget of the shard is used up", shard, i)
 			pl.Case(c, func(x *h.Ctx) { x.Label("inconclusive-slow") })
 			continue
